@@ -149,16 +149,19 @@ func (w *world) prepare(i int, st WStep) (call func(in *Inst) error, post func()
 				w.tracked[s] = true
 			}
 		}
-	case "verify", "ingest":
+	case "verify", "ingest", "vpp":
 		if err := w.liveCheck(i, st.Set); err != nil {
 			return nil, nil, err
 		}
 		hs := f.HashesOf(st.Set)
-		proof := f.View().Proof(hs)
+		vw := f.View()
+		proof := vw.Proof(hs)
 		call = func(in *Inst) error {
 			var err error
 			if st.Op == "ingest" && in.M != nil {
 				err = in.M.Ingest(cloneHashes(hs), cloneProof(proof))
+			} else if st.Op == "vpp" && in.M != nil {
+				err = vppRemember(in.M, vw, proof.Targets, hs)
 			} else {
 				err = in.Acc().Verify(cloneHashes(hs), cloneProof(proof), true)
 			}
@@ -287,11 +290,11 @@ func (g *wgen) trackedList() []int {
 func (g *wgen) next(t *rapid.T, lim limits, ops []string) WStep {
 	op := rapid.SampledFrom(ops).Draw(t, "op")
 	switch {
-	case (op == "verify" || op == "ingest") && g.f.NumLive() == 0:
+	case (op == "verify" || op == "ingest" || op == "vpp") && g.f.NumLive() == 0:
 		op = "block"
 	case op == "prune" && (len(g.tracked) == 0 || !g.partial):
 		op = "block"
-	case op == "ingest" && !g.partial:
+	case (op == "ingest" || op == "vpp") && !g.partial:
 		op = "verify"
 	case op == "undo" && len(g.stack) == 0:
 		op = "block"
@@ -324,7 +327,7 @@ func (g *wgen) next(t *rapid.T, lim limits, ops []string) WStep {
 		}
 		g.branch++
 		return WStep{Op: "undo"}
-	case "verify", "ingest":
+	case "verify", "ingest", "vpp":
 		switch rapid.IntRange(0, 11).Draw(t, "odd-call") {
 		case 0: // a call with empty arguments: legal, must change nothing
 			return WStep{Op: op}
@@ -358,4 +361,23 @@ func (g *wgen) addOnly(k int) WStep {
 	b := Block{Add: k, Salt: g.branch, DM: "none", AM: "forced"}
 	applyToModel(g.f, b)
 	return WStep{Op: "block", B: &b}
+}
+
+// vppRemember is the partial-proof way of remembering leaves: ask the forest which proof positions it
+// lacks, hand VerifyPartialProof(remember=true) the true hashes of exactly those (often none at all:
+// siblings of leaves it already tracks).
+func vppRemember(m *u.MapPollard, v *model.View, targets []uint64, hs []Hash) error {
+	missing := m.GetMissingPositions(cloneU64(targets))
+	supply := make([]Hash, 0, len(missing))
+	for _, p := range missing {
+		h, ok := v.At[p]
+		if !ok {
+			return fmt.Errorf("GetMissingPositions(%v) names position %d, which holds no node of the forest", targets, p)
+		}
+		supply = append(supply, h)
+	}
+	if err := m.VerifyPartialProof(cloneU64(targets), cloneHashes(hs), supply, true); err != nil {
+		return fmt.Errorf("VerifyPartialProof(remember) with the %d hashes GetMissingPositions asked for (%v): %v", len(missing), missing, err)
+	}
+	return nil
 }
